@@ -339,6 +339,26 @@ fn histories(n: usize, maxlen: usize) -> Vec<Vec<usize>> {
     all_streams(n, maxlen)
 }
 
+/// calls `T::default()` if (and only if) `T` implements `Default` (autoref specialisation), so that the harness
+/// still builds against a tree whose machine type does not offer it
+struct DefaultProbe<T>(std::marker::PhantomData<T>);
+trait ViaDefault<T> {
+    fn make(&self) -> Option<T>;
+}
+impl<T: Default> ViaDefault<T> for DefaultProbe<T> {
+    fn make(&self) -> Option<T> {
+        Some(T::default())
+    }
+}
+trait ViaNothing<T> {
+    fn make(&self) -> Option<T>;
+}
+impl<T> ViaNothing<T> for &DefaultProbe<T> {
+    fn make(&self) -> Option<T> {
+        None
+    }
+}
+
 pub fn run(tier: &Tier) -> i32 {
     let rep_o = Reporter::new("C19", tier.name());
     let c_o = Counters::default();
@@ -417,7 +437,16 @@ pub fn run(tier: &Tier) -> i32 {
         streams.par_iter().for_each(|s| {
             let (_, used) = run_alone(&env, s, 1);
             drop(used);
-            let vm = VM::new();
+            // both public ways of making a machine: VM::new() and, where the type offers it, Default
+            let made: Vec<(&str, VM)> = {
+                let mut v = vec![("VM::new()", VM::new())];
+                let probe = DefaultProbe::<VM>(std::marker::PhantomData);
+                if let Some(d) = (&probe).make() {
+                    v.push(("VM::default()", d));
+                }
+                v
+            };
+            for (how, vm) in made {
             fresh_checks.fetch_add(1, Ordering::Relaxed);
             let r = Regs::from_vm(&vm);
             let mut bad: Option<String> = None;
@@ -432,7 +461,8 @@ pub fn run(tier: &Tier) -> i32 {
                 bad = Some(format!("memory size {}", vm.mem.len()));
             }
             if let Some(b) = bad {
-                rep.report(Viol { site: "fresh machine".into(), field: "state".into(), vars: vec![], got_val: None, expected: "all registers and all 2^20 bytes zero except FLAGS=F000h, CS=FFFFh".into(), got: b, case: json!({"history": s}), weight: 0 });
+                rep.report(Viol { site: format!("fresh machine / {}", how), field: "state".into(), vars: vec![], got_val: None, expected: "all registers and all 2^20 bytes zero except FLAGS=F000h, CS=FFFFh".into(), got: b, case: json!({"history": s, "constructor": how}), weight: 0 });
+            }
             }
         });
         c.add_exec(streams.len() as u64);
@@ -602,6 +632,50 @@ pub fn run(tier: &Tier) -> i32 {
                 if got != fresh[pi] {
                     rep.report(Viol { site: "parser history / Preprocessor with a cleared context".into(), field: "answer".into(), vars: vec![], got_val: None, expected: clip_text(&fresh[pi], 600), got: clip_text(&got, 600), case: json!({"history": h.iter().map(|a| clip_text(&alpha[*a], 300)).collect::<Vec<_>>(), "probe": clip_text(probe, 300)}), weight: h.len() as u64 });
                     // later probes would only repeat the leak
+                    break;
+                }
+            }
+        });
+        // the source map (a private part of the context, read out by consuming the mapper) after every history
+        // of one (thorough: two) programs and a clear: the same as that of a new context
+        let smap = |ctx: &mut PreprocessorContext| -> String {
+            let m = std::mem::take(&mut ctx.mapper);
+            let mut v: Vec<(usize, usize)> = m.get_source_map().into_iter().map(|(a, b)| (a as usize, b as usize)).collect();
+            v.sort();
+            format!("{:?}", v)
+        };
+        let cheap: Vec<usize> = (0..alpha.len()).filter(|k| alpha[*k].len() < 2000).collect();
+        let fresh_map: Vec<String> = alpha
+            .iter()
+            .map(|s| {
+                let mut ctx = PreprocessorContext::default();
+                let mut out = PreprocessorOutput::default();
+                let _ = pre_answer_reused(&Preprocessor::new(), &mut ctx, &mut out, s);
+                smap(&mut ctx)
+            })
+            .collect();
+        let mut hs2: Vec<Vec<usize>> = Vec::new();
+        for a in cheap.iter() {
+            hs2.push(vec![*a]);
+            if tier.thorough {
+                for b in cheap.iter() {
+                    hs2.push(vec![*a, *b]);
+                }
+            }
+        }
+        hs2.par_iter().for_each(|h| {
+            for pi in cheap.iter() {
+                let p = Preprocessor::new();
+                let mut ctx = PreprocessorContext::default();
+                let mut out = PreprocessorOutput::default();
+                for a in h {
+                    let _ = pre_answer_reused(&p, &mut ctx, &mut out, &alpha[*a]);
+                }
+                hist_n.fetch_add(1, Ordering::Relaxed);
+                let _ = pre_answer_reused(&p, &mut ctx, &mut out, &alpha[*pi]);
+                let got = smap(&mut ctx);
+                if got != fresh_map[*pi] {
+                    rep.report(Viol { site: "parser history / source map of a cleared context".into(), field: "answer".into(), vars: vec![], got_val: None, expected: clip_text(&fresh_map[*pi], 600), got: clip_text(&got, 600), case: json!({"history": h.iter().map(|a| clip_text(&alpha[*a], 300)).collect::<Vec<_>>(), "probe": clip_text(&alpha[*pi], 300)}), weight: h.len() as u64 });
                     break;
                 }
             }
@@ -792,7 +866,7 @@ pub fn run(tier: &Tier) -> i32 {
     }
     let mut cov = Coverage::default();
     cov.exhaustive = true;
-    cov.rule = format!("(a) {} programs with 1-4 entries in the undefined-label set (every order of appearance of up to 4 undefined labels, forward jumps to defined labels in the same set, a label used twice, missing start, later range error, labels in procedures and macros) each run under ALL iteration orders of the set (hook VERIF_ORDER, k! orders) plus two runs in natural hash order: outputs must be byte-identical; {} further programs (the repository's examples, syntax errors, prompt session, divide error, input) rerun 5 times in separate processes (repetition, not enumeration). (b) VM::new() after every history of <= 2 instructions on another machine: all registers and all 2^20 bytes zero except FLAGS=F000h, CS=FFFFh. (c) explicit-state: all pairs of instruction streams of length <= {} over a {}-instruction alphabet (register, flag, memory, stack{} instructions) on two machines with different initial states sharing ONE Interpreter object, in ALL interleavings; each machine's final registers, call stack, return values and watched memory cells must equal the stream run alone on fresh objects (whole-memory audit on a subset). (d) every history of <= {} lines (12-14 line alphabets: valid, invalid, erroring, REP, call/ret, recursion error) through one Preprocessor / DataParser / Interpreter object followed by each probe line: answer and effect equal a fresh object's; the same for one preprocessor CONTEXT that is cleared with the library's clear() and reused (histories ending in the nesting limit, recursion and range errors); print reader: histories of <= 2 commands in one prompt session of the real binary. Free-running 8-thread smoke run with private machines (not deciding). Static audit of iteration/static/clock sites listed under unowned_nondeterminism_candidates (a note, not a verdict)", progs.len(), reruns.len(), maxlen, env.alpha.len(), if tier.thorough { ", call/ret, REP, xchg, label operand" } else { "" }, hl);
+    cov.rule = format!("(a) {} programs with 1-4 entries in the undefined-label set (every order of appearance of up to 4 undefined labels, forward jumps to defined labels in the same set, a label used twice, missing start, later range error, labels in procedures and macros) each run under ALL iteration orders of the set (hook VERIF_ORDER, k! orders) plus two runs in natural hash order: outputs must be byte-identical; {} further programs (the repository's examples, syntax errors, prompt session, divide error, input) rerun 5 times in separate processes (repetition, not enumeration). (b) VM::new() and VM::default() after every history of <= 2 instructions on another machine: all registers and all 2^20 bytes zero except FLAGS=F000h, CS=FFFFh. (c) explicit-state: all pairs of instruction streams of length <= {} over a {}-instruction alphabet (register, flag, memory, stack{} instructions) on two machines with different initial states sharing ONE Interpreter object, in ALL interleavings; each machine's final registers, call stack, return values and watched memory cells must equal the stream run alone on fresh objects (whole-memory audit on a subset). (d) every history of <= {} lines (12-14 line alphabets: valid, invalid, erroring, REP, call/ret, recursion error) through one Preprocessor / DataParser / Interpreter object followed by each probe line: answer and effect equal a fresh object's; the same for one preprocessor CONTEXT that is cleared with the library's clear() and reused (histories ending in the nesting limit, recursion and range errors), including the source map such a context yields; print reader: histories of <= 2 commands in one prompt session of the real binary. Free-running 8-thread smoke run with private machines (not deciding). Static audit of iteration/static/clock sites listed under unowned_nondeterminism_candidates (a note, not a verdict)", progs.len(), reruns.len(), maxlen, env.alpha.len(), if tier.thorough { ", call/ret, REP, xchg, label operand" } else { "" }, hl);
     cov.bounds = json!({"order_programs": progs.len(), "order_runs": orders_run.load(Ordering::Relaxed), "distinct_first_lines_in_order_runs": distinct_msgs.lock().unwrap().len(), "rerun_programs": reruns.len(), "fresh_machine_checks": fresh_checks.load(Ordering::Relaxed), "streams": streams.len(), "stream_pairs": pairs_n.load(Ordering::Relaxed), "interleaved_runs": inter_n.load(Ordering::Relaxed), "whole_memory_audits": full_audits.load(Ordering::Relaxed), "parser_history_probes": hist_n.load(Ordering::Relaxed), "prompt_session_probes": prompt_hist.load(Ordering::Relaxed), "threads_joined": thread_runs, "tier": tier.name()});
     cov.extra.insert("unowned_nondeterminism_candidates".into(), json!(audit));
     cov.assumptions = common_assumptions();
